@@ -79,6 +79,7 @@ type Interp struct {
 	goOrd        map[*ast.FuncDecl]map[*ast.GoStmt]string
 	ParamDomain  map[string]int64 // root int parameter name -> lower bound
 	DistinctLens bool             // every channel parameter has its own length and capacity symbol
+	SkipGamma    map[string]bool  // types whose Γ ordering assumption is not used in this analysis
 	MaxPaths     int
 	callDepth    int
 	states       map[*Stage]*stState
